@@ -101,7 +101,7 @@ def _run_impl(case, d):
             out["min_ts"] = int(ta.t.min_ts)
         except Exception as e:
             out["files_error"] = type(e).__name__ + ": " + str(e)[:200]
-    return {"frames": frames, "out": out}
+    return {"frames": frames, "out": out, "frames_altered": fw.frames_altered(case, ta, frames, sym)}
 
 
 def _bw4(row):
